@@ -371,7 +371,8 @@ class NumberSlice(Contract):
 
 # remainder != 0 (chunks of two different lengths glued by insert/append): the quantified argument is not found
 # by z3 within the budget on the unchanged tree -> not registered; covered by the exhaustive lattice run (bounded)
-PPI_CASES = [dict(last_full=lf, rem=rem) for lf in (True, False) for rem in ("zero",)] + [dict(last_full=True, rem="zero", bad_reference=True)]
+# rem="short": fewer observations than n_points - the one incomplete interval holds them all
+PPI_CASES = [dict(last_full=lf, rem=rem) for lf in (True, False) for rem in ("zero", "short")] + [dict(last_full=True, rem="zero", bad_reference=True)]
 
 
 @contract(IV + "PointsPerIntervalSlicer._slice", ["C10", "C09", "C18"], PPI_CASES, name="slicer.points.slice")
@@ -398,11 +399,14 @@ class PointsSlice(Contract):
         self.n = cx.sym("n", "int")
         self.np_ = integer(cx, "n_points")
         cx.assume(T.ge(self.np_.t, 1))
-        cx.assume(T.ge(self.n, self.np_.t), "at least one full chunk")
-        self.q = cx.sym("n_full_chunks", "int")
-        self.r = cx.sym("remainder", "int")
-        cx.assume(T.land(T.eq(self.n, self.q * self.np_.t + self.r), T.ge(self.r, 0), T.lt(self.r, self.np_.t), T.ge(self.q, 1)), "n = q * n_points + r")
-        cx.assume(T.eq(self.r, 0) if case["rem"] == "zero" else T.gt(self.r, 0))
+        if case["rem"] == "short":
+            cx.assume(T.land(T.ge(self.n, 1), T.lt(self.n, self.np_.t)), "fewer observations than one chunk")
+        else:
+            cx.assume(T.ge(self.n, self.np_.t), "at least one full chunk")
+            self.q = cx.sym("n_full_chunks", "int")
+            self.r = cx.sym("remainder", "int")
+            cx.assume(T.land(T.eq(self.n, self.q * self.np_.t + self.r), T.ge(self.r, 0), T.lt(self.r, self.np_.t), T.ge(self.q, 1)), "n = q * n_points + r")
+            cx.assume(T.eq(self.r, 0) if case["rem"] == "zero" else T.gt(self.r, 0))
         self.data = sym_array(cx, "data", (self.n,))
         self.obj = slicer_obj("PointsPerIntervalSlicer", n_points=self.np_, reference=("center" if case.get("bad_reference") else callable_ref(cx)), last_full=case["last_full"])
         itp.scratch["split_width_hint"] = self.np_.t
@@ -419,6 +423,17 @@ class PointsSlice(Contract):
             return
         slices = pre[0]
         m = seq_len(slices)
+        if case["rem"] == "short":
+            cx.oblige("post.n_chunks", T.eq(m, 1), "post", "fewer observations than n_points: exactly one (incomplete) interval")
+            if not cx.valid(T.eq(m, 1)):
+                return
+            mask = seq_elem(slices, 0)
+            okm = isinstance(mask, SArr) and mask.ndim == 1
+            cx.oblige("post.aligned.length", T.eq(mask.shape[0], self.n) if okm else False, "post", "the mask has one entry per input position")
+            if okm:
+                (k,) = fresh_index(cx, (self.n,))
+                cx.oblige("post.aligned", T.eq(mask.get((k,)), True), "post", "every observation lies in the one interval")
+            return
         want_m = self.q if case["rem"] == "zero" else self.q + 1
         cx.oblige("post.n_chunks", T.eq(m, want_m), "post", "one interval per full chunk plus one for the remainder")
         j = cx.fresh("j", "int")
@@ -626,6 +641,9 @@ class FloatRobustBase(Contract):
 
 @contract(IV + "WidthOfIntervalSlicer._slice", ["C10"], [dict(right_open=True), dict(right_open=False)], name="slicer.width.partition_float_robust")
 class WidthFloatRobust(FloatRobustBase):
+    def replay(self, case, ob):
+        return replay_with_lattice("width")
+
     def case_label(self, case):
         return f"right_open={case['right_open']}"
 
@@ -658,6 +676,9 @@ class WidthFloatRobust(FloatRobustBase):
 
 @contract(IV + "NumberOfIntervalsSlicer._slice", ["C10"], [dict(include_max=True), dict(include_max=False)], name="slicer.number.partition_float_robust")
 class NumberFloatRobust(FloatRobustBase):
+    def replay(self, case, ob):
+        return replay_with_lattice("number")
+
     def case_label(self, case):
         return f"include_max={case['include_max']}"
 
